@@ -11,8 +11,10 @@ package main
 // missing name then reports an unresolved anchor).
 
 import (
+	"bytes"
 	"fmt"
 	"go/ast"
+	"go/printer"
 	"go/token"
 	"go/types"
 	"os"
@@ -177,6 +179,33 @@ func detectRenames(ref map[string]bool, pkgs map[string]*packages.Package, types
 	var out []rename
 	for g, names := range missing {
 		as := added[g]
+		if len(names) > 1 && len(names) == len(as) && as[0].Kind == "var" && !typesOnly {
+			// several package variables of one type renamed at once: they are
+			// told apart by what they are initialised with (refs/var_inits.txt)
+			refInit := readVarInits(verifDir)
+			curInit := varInits(pkgs)
+			used := map[string]bool{}
+			var pairs []rename
+			for _, e := range as {
+				ci := curInit[e.Pkg+"\t"+e.Name]
+				match := ""
+				n := 0
+				for _, old := range names {
+					if ri, ok := refInit[e.Pkg+"\t"+old]; ok && ri == ci && ci != "" && !used[old] {
+						match = old
+						n++
+					}
+				}
+				if n == 1 {
+					used[match] = true
+					pairs = append(pairs, rename{obj: objs[e.line()], from: e.Name, to: match, kind: e.Kind})
+				}
+			}
+			if len(pairs) == len(as) {
+				out = append(out, pairs...)
+			}
+			continue
+		}
 		if len(names) != 1 || len(as) != 1 {
 			continue
 		}
@@ -472,4 +501,51 @@ func parenIfNeeded(n ast.Expr, s string) string {
 		return s
 	}
 	return "(" + s + ")"
+}
+
+// varInits: the source text each package-level variable is initialised with
+// ("pkgpath\tname" -> text), for variables declared with a single value.
+func varInits(pkgs map[string]*packages.Package) map[string]string {
+	out := map[string]string{}
+	for _, sp := range scopePkgs {
+		p := pkgs[modPath+sp]
+		if p == nil {
+			continue
+		}
+		for _, f := range p.Syntax {
+			for _, d := range f.Decls {
+				gd, ok := d.(*ast.GenDecl)
+				if !ok || gd.Tok != token.VAR {
+					continue
+				}
+				for _, spc := range gd.Specs {
+					vs, ok := spc.(*ast.ValueSpec)
+					if !ok || len(vs.Names) != len(vs.Values) {
+						continue
+					}
+					for i, n := range vs.Names {
+						var b bytes.Buffer
+						printer.Fprint(&b, p.Fset, vs.Values[i])
+						out[p.PkgPath+"\t"+n.Name] = strings.Join(strings.Fields(b.String()), " ")
+					}
+				}
+			}
+		}
+	}
+	return out
+}
+
+func readVarInits(verif string) map[string]string {
+	b, err := os.ReadFile(filepath.Join(verif, "refs", "var_inits.txt"))
+	if err != nil {
+		return nil
+	}
+	m := map[string]string{}
+	for _, l := range strings.Split(string(b), "\n") {
+		parts := strings.SplitN(l, "\t", 3)
+		if len(parts) == 3 {
+			m[parts[0]+"\t"+parts[1]] = parts[2]
+		}
+	}
+	return m
 }
